@@ -58,6 +58,13 @@ def run(ctx, model_ok):
                 v[k] = rng.choice([x for x in ((base[k] + 1) % 2 ** 64, 0x7777 + k, 2 ** 63 + 5, 2 ** 64 - 1) if x != base[k]])
                 metas.append((key, v, last, 7, paths, []))
             if rep == 0:
+                # the 32-bit boundaries: a 64-bit START word in [2^31, 2^32) is that number, not a negative 32-bit one
+                for k in range(4):
+                    if k not in enumw:
+                        for x in (2 ** 31, 2 ** 32 - 1 - k):
+                            v = list(base)
+                            v[k] = x
+                            metas.append((key, v, last, 7, paths, []))
                 # source-guided boundary values: the integer literals the handler compares its arguments with
                 for cst in dc.handler_constants(R, key):
                     for k in range(4):
